@@ -422,14 +422,26 @@ func c09Wire(r *Run) {
 	K := 1 + T.Draw("senders", 5)
 	M := 1 + T.Draw("requests", 4)
 	neverAnswer := T.Draw("never", 3) // up to this many requests are answered only at the very end
+	// rarely: a large limit and one sender that fires a burst of N sends at a peer that is not reading
+	// (queues fill up), twice; every one of the N must be accepted both times
+	bigBurst := T.Draw("bigburst", 80) == 79
+	if bigBurst && v != primitive.ProtocolVersion2 {
+		N = 1100 + T.Draw("bigN", 900)
+		K, M, neverAnswer = 1, 0, 0
+		r.StepBudget = 6000000
+	} else {
+		bigBurst = false
+	}
 	opts := LinkOpts{Capacity: []int{1 << 20, 64, 4096}[T.DrawP("capacity", 3, 0.6)], Latency: ms([]int{0, 1, 20}[T.Draw("latency", 3)]), ChunkReads: T.Bool("chunkReads", 0.5)}
 	r.Config["version"] = v.String()
 	r.Config["N"] = fmt.Sprint(N)
 	r.Config["senders"] = fmt.Sprint(K)
 	r.Config["requests"] = fmt.Sprint(M)
+	r.Config["bigBurst"] = fmt.Sprint(bigBurst)
 	ctx, cancel := context.WithCancel(context.Background())
 	a, b := r.Net.Pair("L", r.Net.NewClientAddr(), mustAddr("10.0.0.2:9042"), opts)
 	peer := NewRawPeer(r, b, byte(v))
+	peerStalled := false
 	// peer-side observation of the wire
 	unanswered := map[int16]string{}
 	var wireLog []string
@@ -471,6 +483,9 @@ func c09Wire(r *Run) {
 				cond.Bump()
 			}()
 			for {
+				for peerStalled {
+					r.Sleep(10 * time.Millisecond)
+				}
 				f, err := peer.ReadFrame()
 				r.Yield("peer.read")
 				if err != nil {
@@ -644,6 +659,39 @@ func c09Wire(r *Run) {
 			r.Probes["wire_harness_unanswered"]++
 			done = true
 			return
+		}
+		if bigBurst {
+			for round := 0; round < 2; round++ {
+				peerStalled = true
+				var burst []client.InFlightRequest
+				for k := 0; k < N; k++ {
+					req, err := cc.Send(queryFrame(v, client.ManagedStreamId, fmt.Sprintf("b%d.%d", round, k)))
+					if k%64 == 0 {
+						r.Yield("burst.sent")
+					}
+					if err != nil || req == nil {
+						r.Violate(P, "refusal", "wire-refused-below-limit", "burst %d: send %d of %d was refused although only %d requests are unanswered and the limit is %d: %v", round+1, k+1, N, k, N, err)
+						break
+					}
+					burst = append(burst, req)
+				}
+				r.Probes["big_bursts"]++
+				peerStalled = false
+				for _, req := range burst {
+					f, err := cc.Receive(req)
+					if f == nil || err != nil {
+						unansweredByPeer++
+						break
+					}
+				}
+				r.Yield("burst.answered")
+			}
+			if unansweredByPeer > 0 {
+				r.Probes["wire_harness_unanswered"]++
+				done = true
+				return
+			}
+			accepted += 2 * N
 		}
 		// recycling: everything is answered now, so N new requests must be accepted, ids 1..N distinct
 		seen := map[int16]bool{}
